@@ -46,13 +46,24 @@ def run(ctx):
             txt = str(k_)
             return ('from_be_bytes' in txt and p == RECV2) or (isinstance(k_, tuple) and k_ and k_[0] == 'len' and rn in txt)
         cands = []
-        for bb in sorted(B.live_blocks()):
+        # breadth-first from the read: the first branch found is the one closest to the read (the others lie behind it)
+        from collections import deque
+        order_, seen_, dq_ = [], {first_read}, deque([first_read])
+        while dq_:
+            x_ = dq_.popleft()
+            order_.append(x_)
+            for y_ in B.succ(x_):
+                if y_ not in seen_:
+                    seen_.add(y_)
+                    dq_.append(y_)
+        for bb in order_:
             if B.blocks[bb]['t']['k'] != 'switch':
                 continue
             for s_ in B.succ(bb):
                 if any(is_frame_len(k_) and v_ == (0, 0) for k_, v_ in R.facts_at(s_).items()) and not any(is_frame_len(k_) and v_ == (0, 0) for k_, v_ in R.facts_at(bb).items()):
                     cands.append((bb, s_))
-        cands = [c for c in cands if not any(o != c and B.block_dominates(o[0], c[0]) for o in cands)]
+            if cands:
+                break
         if cands:
             found = True
             bb, tick_edge = cands[0]
